@@ -8,7 +8,7 @@ use rustc_middle::mir::{
     TerminatorKind, UnwindAction,
 };
 use rustc_middle::ty::print::with_no_trimmed_paths;
-use rustc_middle::ty::{self, GenericArgKind, GenericArgsRef, Instance, Ty, TyCtxt, TypingEnv};
+use rustc_middle::ty::{self, GenericArgKind, GenericArgsRef, Instance, Ty, TyCtxt, TypeSuperVisitable, TypeVisitable, TypeVisitableExt, TypeVisitor, TypingEnv};
 use rustc_span::Span;
 
 pub struct Cx<'tcx> {
@@ -291,6 +291,32 @@ impl<'tcx> Cx<'tcx> {
             let ins: Vec<J> = sig.inputs().iter().map(|t| J::from(self.ty(*t))).collect();
             o.set("inputs", J::Arr(ins));
             o.set("output", self.ty(sig.output()));
+            // lifetimes: which regions occur in the output (outside associated-type projections) and which in the inputs
+            {
+                let lsig = tcx.liberate_late_bound_regions(did, tcx.fn_sig(did).instantiate_identity().skip_norm_wip());
+                let mut rv_out = RegionNames { out: Vec::new(), skip_alias: true };
+                lsig.output().visit_with(&mut rv_out);
+                let mut rv_in = RegionNames { out: Vec::new(), skip_alias: false };
+                for t in lsig.inputs().iter() {
+                    t.visit_with(&mut rv_in);
+                }
+                o.set("out_regions", J::Arr(rv_out.out.into_iter().map(J::from).collect()));
+                // regions in "view positions" of the output: `&'r X` with X generic or local, and lifetime arguments of local ADTs
+                let mut rv_view = ViewRegions { out: Vec::new() };
+                lsig.output().visit_with(&mut rv_view);
+                o.set("out_view_regions", J::Arr(rv_view.out.into_iter().map(J::from).collect()));
+                o.set("in_regions", J::Arr(rv_in.out.into_iter().map(J::from).collect()));
+                let mut ol = Vec::new();
+                // predicates_of(..).instantiate_identity includes the enclosing impl's predicates
+                for (p, _sp) in tcx.predicates_of(did).instantiate_identity(tcx).into_iter() {
+                    let p = p.skip_norm_wip();
+                    if let Some(c) = p.as_region_outlives_clause() {
+                        let c = c.skip_binder();
+                        ol.push(J::Arr(vec![J::from(region_name(c.0)), J::from(region_name(c.1))]));
+                    }
+                }
+                o.set("region_outlives", J::Arr(ol));
+            }
             o.set("deprecated", tcx.lookup_deprecation(did).is_some());
             let cattrs = tcx.codegen_fn_attrs(did);
             o.set("track_caller", cattrs.flags.contains(rustc_middle::middle::codegen_fn_attrs::CodegenFnAttrFlags::TRACK_CALLER));
@@ -321,7 +347,7 @@ impl<'tcx> Cx<'tcx> {
                     ty::GenericParamDefKind::Lifetime => "lifetime",
                     ty::GenericParamDefKind::Type { .. } => "type",
                     ty::GenericParamDefKind::Const { .. } => "const",
-                }).done());
+                }).put("may_dangle", p.pure_wrt_drop).done());
             }
         }
         o.set("generics", J::Arr(gens));
@@ -802,5 +828,79 @@ fn region_str(r: ty::Region<'_>) -> String {
         "'_".to_string()
     } else {
         s
+    }
+}
+
+
+fn region_name(r: ty::Region<'_>) -> String {
+    match r.kind() {
+        ty::ReStatic => "'static".to_string(),
+        ty::ReEarlyParam(p) => p.name.to_string(),
+        ty::ReLateParam(p) => format!("late:{:?}", p.kind),
+        _ => format!("{:?}", r),
+    }
+}
+
+struct RegionNames {
+    out: Vec<String>,
+    skip_alias: bool,
+}
+
+impl<'tcx> TypeVisitor<TyCtxt<'tcx>> for RegionNames {
+    fn visit_ty(&mut self, t: Ty<'tcx>) {
+        if self.skip_alias {
+            if let ty::Alias(..) = t.kind() {
+                return;
+            }
+        }
+        t.super_visit_with(self)
+    }
+    fn visit_region(&mut self, r: ty::Region<'tcx>) {
+        let n = region_name(r);
+        if !self.out.contains(&n) {
+            self.out.push(n);
+        }
+    }
+}
+
+struct ViewRegions {
+    out: Vec<String>,
+}
+
+impl ViewRegions {
+    fn push(&mut self, r: ty::Region<'_>) {
+        let n = region_name(r);
+        if !self.out.contains(&n) {
+            self.out.push(n);
+        }
+    }
+}
+
+fn mentions_local_adt<'tcx>(t: Ty<'tcx>) -> bool {
+    t.walk().any(|a| match a.kind() {
+        GenericArgKind::Type(x) => matches!(x.kind(), ty::Adt(d, _) if d.did().is_local()),
+        _ => false,
+    })
+}
+
+impl<'tcx> TypeVisitor<TyCtxt<'tcx>> for ViewRegions {
+    fn visit_ty(&mut self, t: Ty<'tcx>) {
+        match t.kind() {
+            ty::Alias(..) => return,
+            ty::Ref(r, inner, _) => {
+                if inner.has_param() || mentions_local_adt(*inner) {
+                    self.push(*r);
+                }
+            }
+            ty::Adt(d, args) if d.did().is_local() => {
+                for a in args.iter() {
+                    if let GenericArgKind::Lifetime(r) = a.kind() {
+                        self.push(r);
+                    }
+                }
+            }
+            _ => {}
+        }
+        t.super_visit_with(self)
     }
 }
